@@ -1,0 +1,8 @@
+//go:build verif
+
+package sign
+
+import "github.com/taurusgroup/multi-party-sig/pkg/math/curve"
+
+// VerifZ exposes the response scalar of a signature to the verification harness (build tag verif).
+func (sig Signature) VerifZ() curve.Scalar { return sig.z }
